@@ -669,6 +669,33 @@ def main():
                 ex.run_line("P items _ _")
             if caseno >= cases: break
         ex.close(); return
+    if suite == "py-exh4":
+        # a FOUR-level tree (ascending even keys: every node at its minimum except the right spine), then every
+        # sequence of `depth` distinct deletions over a window in the middle: branches whose children are branches
+        # underflow, borrow from a branch sibling (left or right) or merge; after the deletions every lookup and a
+        # set of bounded scans with present and absent endpoints
+        import itertools
+        depth = min(max(n, 2), 4)
+        for cap, count in ((4, 30), (5, 64)):
+            keys = [2 * i for i in range(count)]
+            mid = len(keys) // 2
+            for start in (mid - 6, mid + 2):
+                window = keys[start:start + 7]
+                for hist in itertools.permutations(window, depth):
+                    if caseno >= cases: break
+                    caseno += 1
+                    ex.run_line(f"case {caseno}"); ex.run_line("flavour int"); ex.run_line(f"P new {cap}")
+                    for k in keys: ex.run_line(f"P set {k} {k % 5 + 1}")
+                    ex.run_line("P dump")
+                    for k in hist:
+                        ex.run_line(f"P del {k}"); ex.run_line("P dump")
+                    lo_w, hi_w = window[0] - 6, window[-1] + 6
+                    for k in range(lo_w, hi_w, 3):
+                        ex.run_line(f"P in {k}")
+                        ex.run_line(f"P items {k} _")
+                    ex.run_line(f"P keys {lo_w} {hi_w}")
+                    ex.run_line("P items _ _")
+        ex.close(); return
     for _ in range(cases):
         caseno += 1
         ex.run_line(f"case {caseno}")
